@@ -1,17 +1,19 @@
 """C04 — order lifecycle.  Step-sync of every matcher call (order status / fill bookkeeping) against the Lean model; monitors on the
 published order/trade event stream: legal transitions, single announcement, fill accounting, returned orders, nothing open after the close."""
-import tstream, monitors, match_sync
+import tstream, monitors, match_sync, minute_stream
 LEVEL = "proof"
 RULE = ("daily runs with several orders per bar (market/limit, stock/futures, all sides and effects), cancels at later points, partial fills under volume caps, split "
         "closes with resting closes, orders in the auction and in bars; one evaluation = one order/trade event or matcher call; non-trivial = status change; "
         "distinct = by (order type, effect, outcome, auction)")
 TRUSTED = ["harness wraps DefaultBarMatcher.match at run time and listens to every ORDER_*/TRADE event"]
-ASSUMPTIONS = ["signal mode and minute frequency are monitored only", "cancel of an auction order under next_bar (F4) and of a final order (F23) are the stated exclusions of `announce once`"]
+ASSUMPTIONS = ["signal mode and minute frequency (stock accounts, synthesised minute bars, current_bar / next_bar) are monitored only: the matcher step-sync runs on the daily stream"]
 
 
 def run(ctx):
     corr = ctx.corr("DefaultBarMatcher.match -> order", "order status, filled quantity, average price, cost and the bar accumulator after every real matcher call vs model `matchOrder/orderAfter`")
     tstream.stream(ctx, ctx.n(60, 3000), None, [monitors.c04_monitor], extra_sync=lambda c, tr, ix: match_sync.run_sync(c, corr, tr, ix))
+    # minute frequency (current_bar / next_bar matching): event-stream monitor only
+    minute_stream.stream(ctx, ctx.n(4, 120), [monitors.c04_monitor])
 
 
 def replay(ctx, data):
